@@ -46,7 +46,7 @@ theorem overload_search_shape :
 
 theorem config_check_shape :
     Gen.configCheckOperatorLoop =
-      "for op, fns := range c.Operators { for _, fn := range fns { fnType, ok := c.Types[fn] if !ok || fnType.Type.Kind() != reflect.Func { return fmt.Errorf(\"function %s for %s operator does not exist in environment\", fn, op) } requiredNumIn := 2 if fnType.Method { requiredNumIn = 3 } if fnType.Type.NumIn() != requiredNumIn || fnType.Type.NumOut() != 1 { return fmt.Errorf(\"function %s for %s operator does not have a correct signature\", fn, op) } } }" :=
+      "for op, fns := range c.Operators { for _, fn := range fns { fnType, ok := c.Types[fn] if !ok || fnType.Type == nil || fnType.Type.Kind() != reflect.Func { return fmt.Errorf(\"function %s for %s operator does not exist in environment\", fn, op) } requiredNumIn := 2 if fnType.Method { requiredNumIn = 3 } if fnType.Type.NumIn() != requiredNumIn || fnType.Type.NumOut() != 1 { return fmt.Errorf(\"function %s for %s operator does not have a correct signature\", fn, op) } } }" :=
   rfl
 
 /-- **Main theorem.**  For every overload table, every typing of the nodes and every tree: patching the
@@ -146,7 +146,7 @@ theorem patched_keeps_meta (ops : OpTable) (tyOf : Node → String) (m : Meta) (
 
 /-- **Config.Check** accepts an operator table exactly when every mapped name is in the types table
     with a function type of two parameters (three for methods: the receiver) and one result; anything
-    else is rejected (`missing` / `badSignature`) — or panics, for a name whose tag has no type. -/
+    else is rejected with an error (`missing` / `badSignature`). -/
 theorem config_check_rejects (types : List (String × FnTag)) (ops : List (String × List String)) :
     configCheck types ops = .ok ↔
       ∀ e ∈ ops, ∀ fn ∈ e.2, ∃ t, types.lookup fn = some t ∧
@@ -154,11 +154,19 @@ theorem config_check_rejects (types : List (String × FnTag)) (ops : List (Strin
   rw [configCheck_ok_iff]
   simp [FnTag.wellShaped, and_assoc]
 
-/-- the one way `Config.Check` does not return an error for an unusable name: a tag without type
-    (an ambiguous embedded field) makes `fnType.Type.Kind()` dereference nil -/
-theorem config_check_panic_witness :
-    configCheck [("X", { hasType := false, isFunc := false, numIn := 0, numOut := 0 })] [("+", ["X"])] = .panic "X" "+" := by
+/-- a name whose tag has no type (an ambiguous embedded field, a nil map value) is rejected as missing -/
+theorem config_check_untyped_rejected :
+    configCheck [("X", { hasType := false, isFunc := false, numIn := 0, numOut := 0 })] [("+", ["X"])] = .missing "X" "+" := by
   decide
+
+/-- `Config.Check` never fails otherwise than by returning one of its two errors -/
+theorem config_check_total (types : List (String × FnTag)) (ops : List (String × List String)) :
+    configCheck types ops = .ok ∨ (∃ fn op, configCheck types ops = .missing fn op) ∨
+      (∃ fn op, configCheck types ops = .badSignature fn op) := by
+  cases h : configCheck types ops with
+  | ok => exact Or.inl rfl
+  | missing fn op => exact Or.inr (Or.inl ⟨fn, op, rfl⟩)
+  | badSignature fn op => exact Or.inr (Or.inr ⟨fn, op, rfl⟩)
 
 /-- not stated here: that the VM evaluates `FunctionNode fn [l, r]` as `fn` applied to the values of
     `l` and `r` in order (C01's compile-and-run conformance); the harness checks it on the real code. -/
